@@ -308,6 +308,20 @@ class C12(Check):
 
         for i, datum in enumerate(data):
             ops.append((f"schemaless_reader(raw writer, form as reader)#{i}", sl_read_as_reader(datum)))
+            for optname in ("return_record_name", "return_named_type"):
+                def sl_read_as_reader_opt(schema, datum=datum, optname=optname):
+                    # writer and reader may now give the same union branch in different forms (inline / by name)
+                    fo = io.BytesIO()
+                    fastavro.schemaless_writer(fo, copy.deepcopy(strip_markers(case["schema"])), datum)
+                    fo.seek(0)
+                    return fastavro.schemaless_reader(fo, copy.deepcopy(strip_markers(case["schema"])), schema, **{optname: True})
+                ops.append((f"schemaless_reader(raw writer, form as reader, {optname})#{i}", sl_read_as_reader_opt))
+                def sl_read_form_writer_opt(schema, datum=datum, optname=optname):
+                    fo = io.BytesIO()
+                    fastavro.schemaless_writer(fo, schema, datum)
+                    fo.seek(0)
+                    return fastavro.schemaless_reader(fo, schema, copy.deepcopy(strip_markers(case["schema"])), **{optname: True})
+                ops.append((f"schemaless_reader(form as writer, raw reader, {optname})#{i}", sl_read_form_writer_opt))
             ops.append((f"schemaless_writer#{i}", sl_write(datum)))
             ops.append((f"schemaless_reader#{i}", sl_read(datum)))
             ops.append((f"schemaless_reader+reader_schema#{i}", sl_read_rr(datum)))
